@@ -790,6 +790,25 @@ Script gen_c08(uint64_t seed, const std::string& tier, Rng& r)
         PosSpec p;
         uint64_t k = r.below(100);
         bool deep_sparse = false;
+        if (r.chance(0.12))
+        {
+            // rich tactical positions (many pieces attacking each other): mate threats everywhere, pruning decisions matter
+            if (r.chance(0.6)) p.start_fen = gen_melee_fen(r);
+            else
+            {
+                PosSpec q = gen_position(r, 60, 2);
+                playout(q.game, r, int(r.range(2, 12)), 0.9);
+                p.start_fen = q.game.cur.fen();
+            }
+            p.game = ref::Game(ref::Board(p.start_fen));
+            if (!p.game.cur.legal().empty())
+            {
+                g.set_position(p);
+                s.ops.push_back(send("go depth " + std::to_string(r.range(3, 6))));
+                s.ops.push_back(simple(OP_AWAIT_BEST));
+                continue;
+            }
+        }
         if (k < 20) p.start_fen = mate_fens()[r.below(mate_fens().size())];
         else if (k < 32) p.start_fen = quiet_sparse_fens()[r.below(quiet_sparse_fens().size())];
         else if (k < 45) p = gen_evasion_family(r);
@@ -978,7 +997,7 @@ Script gen_c10(uint64_t seed, const std::string& tier, Rng& r)
     g.common_cfg("C10");
     s.cfg.node_cap = 60000;
     uint64_t shape = r.below(100);
-    if (shape < 30)
+    if (shape < 27)
     {
         // long games replayed through `position startpos moves ...`, then searched
         PosSpec p;
@@ -998,7 +1017,7 @@ Script gen_c10(uint64_t seed, const std::string& tier, Rng& r)
             s.ops.push_back(simple(OP_AWAIT_BEST));
         }
     }
-    else if (shape < 50)
+    else if (shape < 44)
     {
         static const char* tiny[] = {"8/8/4k3/8/8/3K4/8/8 w - - 0 1", "8/8/4k3/8/8/3K1N2/8/8 w - - 0 1", "k7/8/1K6/8/8/8/8/7Q w - - 0 1",
                                      "8/8/8/4k3/8/4K3/4P3/8 w - - 0 1"};
@@ -1026,7 +1045,7 @@ Script gen_c10(uint64_t seed, const std::string& tier, Rng& r)
     else if (shape < 50)
     {
         // the evaluator on every specialised endgame class and on extreme material, through the UCI `staticeval` command
-        int n = int(r.range(8, 25));
+        int n = int(r.range(30, 80));
         for (int i = 0; i < n; ++i)
         {
             std::string fen = r.chance(0.75) ? gen_endgame_class_fen(r) : (r.chance(0.5) ? gen_heavy_fen(r) : gen_sparse_fen(r, 0, 7, true));
